@@ -217,6 +217,75 @@ pub fn variants(p: &Pos, rng: &mut gen::R, hs: &Hashers, rep: &mut Report) {
     }
 }
 
+/// Cross-component aliasing: all positions obtained from one base by ONE substitution (a man put on an
+/// empty square, the side flipped, one castling right added, one legal en-passant target added) are
+/// pairwise rule-different, so all their hashes must be pairwise different. One-component pairs against
+/// the base cannot see a key shared between two components (e.g. the en-passant key of a square equal
+/// to the key of a pawn on that square); this can.
+pub fn substitution_family(base: &Pos, hs: &Hashers, rep: &mut Report) {
+    let mut fam: Vec<(String, Pos)> = vec![];
+    let mut b0 = base.clone();
+    b0.ep = None;
+    // men on empty squares: every kind and colour on every empty square (kept when legal)
+    for s in 0..64usize {
+        if b0.b[s] != 0 {
+            continue;
+        }
+        for v in [1i8, 2, 3, 4, 5, -1, -2, -3, -4, -5] {
+            if v.abs() == 1 && (s < 8 || s >= 56) {
+                continue;
+            }
+            let mut q = b0.clone();
+            q.b[s] = v;
+            if q.is_legal_position() {
+                fam.push((format!("man {} on {}", v, sq_name(s as u8)), q));
+            }
+        }
+    }
+    // side flipped
+    let mut q = b0.clone();
+    q.wtm = !q.wtm;
+    if q.is_legal_position() {
+        fam.push(("side".into(), q));
+    }
+    // one more castling right
+    for (bit, ksq, rsq, k, r) in [(WK, 4usize, 7usize, 6i8, 4i8), (WQ, 4, 0, 6, 4), (BK, 60, 63, -6, -4), (BQ, 60, 56, -6, -4)] {
+        if b0.castle & bit == 0 && b0.b[ksq] == k && b0.b[rsq] == r {
+            let mut q = b0.clone();
+            q.castle |= bit;
+            fam.push((format!("right {}", bit), q));
+        }
+    }
+    // one legally capturable en-passant target
+    let (pawn_r, ep_r, from_r, pawn) = if b0.wtm { (4, 5, 6, -1i8) } else { (3, 2, 1, 1i8) };
+    for f in 0..8 {
+        if b0.b[at(f, pawn_r).unwrap() as usize] == pawn && b0.b[at(f, ep_r).unwrap() as usize] == 0 && b0.b[at(f, from_r).unwrap() as usize] == 0 {
+            let mut q = b0.clone();
+            q.ep = at(f, ep_r);
+            if q.is_legal_position() && q.ep_legal() {
+                fam.push((format!("ep {}", sq_name(q.ep.unwrap())), q));
+            }
+        }
+    }
+    if fam.iter().any(|(w, _)| w.starts_with("ep")) {
+        rep.count("substitution_families_with_en_passant", 1);
+    }
+    rep.count("substitution_families", 1);
+    for (seed, h) in hs.0.iter().take(2) {
+        let mut seen: HashMap<u64, usize> = HashMap::new();
+        for (i, (what, q)) in fam.iter().enumerate() {
+            let Ok(x) = hash(h, &to_state(q)) else { continue };
+            rep.eval(1);
+            if let Some(j) = seen.insert(x, i) {
+                let (w2, q2) = &fam[j];
+                rep.violation("hash-collision", &format!("hash-collision|substitutions|{}|{}", q2.fen(), q.fen()), &format!("two different single substitutions on {} ({} / {}) hash equal {:#x} (hasher seed {})", b0.fen(), w2, what, x, seed), json!({"fen": q2.fen(), "fen2": q.fen(), "expect": "different"}));
+                return;
+            }
+        }
+    }
+    rep.distinct(mix(b0.key_hash(), 0x5b));
+}
+
 /// transpositions: the same moves in a different order, played through weechess itself
 fn transpositions(start: &Pos, rng: &mut gen::R, hs: &Hashers, rep: &mut Report) {
     let mut seq: Vec<OMove> = vec![];
@@ -370,6 +439,25 @@ pub fn run(ctx: &Ctx, rep: &mut Report) {
     }
     for p in gen::ep_family(&mut rng, ctx.n(10_000, 500_000) as usize).iter() {
         variants(p, &mut rng, &hs, rep);
+    }
+    // en passant as the answer to a check by the pawn that just double-stepped
+    for p in gen::ep_check_family(&mut rng, ctx.n(6_000, 300_000) as usize).iter() {
+        variants(p, &mut rng, &hs, rep);
+        rep.count("ep_answers_check_positions", 1);
+    }
+    // cross-component aliasing on sparse bases (few men: many empty squares to substitute on)
+    let mut n = ctx.n(1_500, 60_000);
+    for p in gen::ep_family(&mut rng, n as usize).iter() {
+        if p.men() <= 10 {
+            substitution_family(p, &hs, rep);
+        }
+    }
+    while n > 0 && ctx.time_left() {
+        let p = gen::sample(&mut rng);
+        if p.men() <= 12 {
+            substitution_family(&p, &hs, rep);
+            n -= 1;
+        }
     }
     rep.count("hasher_seeds", hs.0.len() as u64);
 }
